@@ -1,3 +1,4 @@
 // c17_conv1d.cpp — C17 conv1d driver (body shared with conv2d in c17_conv.inc)
 #define C17_ND 1
+// rev 2 (bump when c17_conv.inc / c17_show.hpp change: the driver cache hashes this file only)
 #include "c17_conv.inc"
